@@ -48,8 +48,9 @@ class _Custom:
     pass
 
 
-def make_custom(wi, wd, ws):
-    """A user-defined Metric: weighted edit distance by plain Python loops (exercises 'all Metric objects')."""
+def make_custom(wi, wd, ws, dtype='int64'):
+    """A user-defined Metric: weighted edit distance by plain Python loops (exercises 'all Metric objects'); the arrays it returns
+    may be of any numeric dtype that holds the (natural-number) distances."""
     from pyrepseq.metric import Metric
     from rapidfuzz.distance import Levenshtein as RL
 
@@ -58,15 +59,17 @@ def make_custom(wi, wd, ws):
 
         def calc_cdist_matrix(self, anchors, comparisons):
             a, b = list(anchors), list(comparisons)
-            return np.array([[RL.distance(x, y, weights=(wi, wd, ws)) for y in b] for x in a], dtype=np.int64).reshape(len(a), len(b))
+            return np.array([[RL.distance(x, y, weights=(wi, wd, ws)) for y in b] for x in a], dtype=np.dtype(dtype)).reshape(len(a), len(b))
 
         def calc_pdist_vector(self, instances):
             a = list(instances)
-            return np.array([RL.distance(a[i], a[j], weights=(wi, wd, ws)) for i in range(len(a)) for j in range(i + 1, len(a))], dtype=np.int64)
+            return np.array([RL.distance(a[i], a[j], weights=(wi, wd, ws)) for i in range(len(a)) for j in range(i + 1, len(a))], dtype=np.dtype(dtype))
     return LoopMetric()
 
 
-def make_metric(m):
+def make_metric(m, case=None):
+    """case (optional) carries the spelling options: metric_kw (weights by keyword), custom_dtype"""
+    case = case or {}
     from pyrepseq.metric import Levenshtein, WeightedLevenshtein
     from pyrepseq.metric.tcr_metric import AlphaCdr3Levenshtein, BetaCdr3Levenshtein, Cdr3Levenshtein
     if m[0] == 'default':
@@ -74,29 +77,54 @@ def make_metric(m):
     if m[0] == 'lev':
         return Levenshtein()
     if m[0] == 'wlev':
+        if case.get('metric_kw'):
+            return WeightedLevenshtein(substitution_weight=m[3], deletion_weight=m[2], insertion_weight=m[1])
         return WeightedLevenshtein(*m[1:])
     if m[0] == 'custom':
-        return make_custom(*m[1:])
+        return make_custom(*m[1:], dtype=case.get('custom_dtype') or 'int64')
     cls = dict(alpha=AlphaCdr3Levenshtein, beta=BetaCdr3Levenshtein, cdr3=Cdr3Levenshtein)[m[0]]
     return cls(insertion_weight=m[1], deletion_weight=m[2], substitution_weight=m[3])
+
+
+def str_container(c, cont, idx):
+    """a collection of strings in one of the admissible container kinds"""
+    if cont == 'ndarray':
+        return np.array(c, dtype=object)
+    if cont == 'ustr':                                  # numpy unicode array
+        return np.array(c, dtype='<U%d' % max([1] + [len(x) for x in c]))
+    if cont == 'tuple' and len(c) != 2:                 # (a tuple of exactly two items is the legacy paired-chain form)
+        return tuple(c)
+    if cont == 'index':
+        return pd.Index(c, dtype=object)
+    if cont in ('series', 'series_string', 'series_cat'):
+        sr = pd.Series(c, index=idx or range(len(c)), dtype=object)
+        return sr.astype('string') if cont == 'series_string' else sr.astype('category') if cont == 'series_cat' else sr
+    if cont == 'set':                                   # generators give distinct elements and a symmetric metric here
+        return set(c)
+    return list(c)
 
 
 def make_coll(case, which):
     c = case[which]
     if c is None:
         return None
-    cont = case.get('container', 'list')
+    cont = (case.get('container_ys') if which == 'ys' else None) or case.get('container', 'list')
     if case['kind'] == 'str':
-        if cont == 'ndarray':
-            return np.array(c, dtype=object)
-        if cont == 'series':
-            return pd.Series(c, index=case.get('index_' + which) or range(len(c)))
-        return list(c)
+        return str_container(c, cont, case.get('index_' + which))
     if case['kind'] == 'tuple':
-        return ([a for a, b in c], [b for a, b in c])
-    cols = case['cols']
+        a, b = [a for a, b in c], [b for a, b in c]
+        parts = case.get('tuple_parts', 'list')
+        if parts == 'series':                           # two Series whose indexes differ: rows pair up by POSITION
+            n = len(c)
+            return (pd.Series(a, index=list(range(n))[::-1], dtype=object), pd.Series(b, index=['r%d' % i for i in range(n)], dtype=object))
+        if parts == 'mixed':
+            return (np.array(a, dtype=object), pd.Series(b, index=list(range(5, 5 + len(c))), dtype=object))
+        if parts == 'ndarray':
+            return (np.array(a, dtype=object), np.array(b, dtype=object))
+        return (a, b)
+    cols = (case.get('cols_ys') if which == 'ys' else None) or case['cols']
     d = {}
-    for k, name in enumerate(case.get('extra', [])):
+    for k, name in enumerate((case.get('extra_ys') if which == 'ys' and case.get('extra_ys') is not None else case.get('extra', []))):
         d[name] = ['TRXV%d' % (i % 3) for i in range(len(c))]
     if 'A' in cols:
         d['CDR3A'] = [a for a, b in c]
@@ -107,6 +135,8 @@ def make_coll(case, which):
         # the metric is chosen from the columns PRESENT, not from their order: beta left of alpha, metadata in between
         order = order[::-1] if case['colperm'] == 'reverse' else order[1:] + order[:1]
     df = pd.DataFrame(d, columns=order)
+    if case.get('df_dtype'):
+        df = df.astype(case['df_dtype'])
     idx = case.get('index_' + which)
     if idx is not None:
         df.index = idx
@@ -127,30 +157,79 @@ def make_bins(case):
         return np.array(py)
     if cont == 'tuple':
         return tuple(py)
+    if cont == 'series':
+        return pd.Series(py)
+    if cont == 'index':
+        return pd.Index(py)
+    if cont in ('u8', 'i16', 'i32') and allint and 0 <= min(vals) and max(vals) < dict(u8=256, i16=2 ** 15, i32=2 ** 31)[cont]:
+        return np.array(py, dtype=dict(u8=np.uint8, i16=np.int16, i32=np.int32)[cont])
+    if cont == 'f32' and all(v.denominator in (1, 2) and abs(v) < 2 ** 20 for v in vals):
+        return np.array([float(v) for v in vals], dtype=np.float32)
+    if cont == 'f64':
+        return np.array([float(v) for v in vals], dtype=np.float64)
+    if cont == 'floats':
+        return [float(v) for v in vals]
+    if cont == 'npscalars':
+        return [np.int64(int(v)) if v.denominator == 1 else np.float64(float(v)) for v in vals]
     return py
 
 
-def call_pcdelta(case, **over):
-    import pyrepseq as prs
+PARAMS = ['seqs2', 'metric', 'bins', 'normalize', 'pseudocount', 'maxseqs']                                      # signature order after seqs
+SIG_DEFAULTS = dict(seqs2=None, metric=None, bins=None, normalize=True, pseudocount=0.0, maxseqs=None)       # as documented
+
+
+def pseudo_value(case):
+    q = fr(case['pseudocount'])
+    kind = case.get('pseudo_kind', 'float')
+    if kind == 'int' and q.denominator == 1:
+        return int(q)
+    if kind == 'f64':
+        return np.float64(float(q))
+    if kind == 'f32' and Fraction(float(np.float32(float(q)))) == q:
+        return np.float32(float(q))
+    return float(q)
+
+
+def call_args(case, **over):
+    """(args, kwargs) of the pcDelta call this case stands for"""
     kw = {}
-    ys = make_coll(case, 'ys')
-    m = make_metric(case['metric'])
+    xs = make_coll(case, 'xs')
+    ys = xs if (case.get('same') == 'object' and case['ys'] is not None) else make_coll(case, 'ys')
+    m = make_metric(case['metric'], case)
     if m is not None:
         kw['metric'] = m
     b = make_bins(case)
     if b is not None:
         kw['bins'] = b
     if case['normalize'] is not None:
-        kw['normalize'] = case['normalize']
+        kw['normalize'] = np.bool_(case['normalize']) if case.get('normalize_kind') == 'npbool' else case['normalize']
     if case['pseudocount'] is not None:
-        kw['pseudocount'] = float(fr(case['pseudocount']))
+        kw['pseudocount'] = pseudo_value(case)
     if case.get('maxseqs') is not None:
-        kw['maxseqs'] = case['maxseqs']
+        kw['maxseqs'] = np.int64(case['maxseqs']) if case.get('maxseqs_kind') == 'np' else case['maxseqs']
     kw.update(over)
-    xs = make_coll(case, 'xs')
-    if ys is not None:
-        return call_impl(prs.pcDelta, xs, ys, **kw)
-    return call_impl(prs.pcDelta, xs, **kw)
+    sp = case.get('spelling', 'kw')
+    if sp == 'positional':                  # every argument by position, the documented defaults for those in between
+        given = dict(kw)
+        if ys is not None:
+            given['seqs2'] = ys
+        last = max([PARAMS.index(k) for k in given] + [-1])
+        return [xs] + [given.get(k, SIG_DEFAULTS[k]) for k in PARAMS[:last + 1]], {}
+    if sp == 'allkw':
+        kw['seqs'] = xs
+        if ys is not None:
+            kw['seqs2'] = ys
+        return [], kw
+    if sp == 'seqs2kw' and ys is not None:
+        kw['seqs2'] = ys
+        return [xs], kw
+    return ([xs, ys] if ys is not None else [xs]), kw
+
+
+def call_pcdelta(case, **over):
+    import pyrepseq as prs
+    args, kw = call_args(case, **over)
+    return call_impl(prs.pcDelta, *args, **kw)
 
 
 def oracle_requests(case):
@@ -219,7 +298,14 @@ def describe(case):
             if k == 'bins' and len(v) > 3 and all('/' not in x for x in v) and all(int(v[i + 1]) - int(v[i]) == 1 for i in range(len(v) - 1)):
                 v = 'range(%s, %d)' % (v[0], int(v[-1]) + 1)
             s += ', %s=%s' % (k, v)
-    return s + ')'
+    s += ')'
+    opts = ['%s=%s' % (k, case[k]) for k in OPTION_KEYS if case.get(k) not in (None, [], 'list', 'kw', 'float')]
+    return s + (' {%s}' % ', '.join(opts) if opts else '')
+
+
+# how the arguments are spelled / what they are made of (none of it may matter for the result)
+OPTION_KEYS = ['container', 'container_ys', 'index_xs', 'index_ys', 'same', 'spelling', 'bins_container', 'normalize_kind', 'pseudo_kind', 'maxseqs_kind',
+               'metric_kw', 'custom_dtype', 'tuple_parts', 'cols_ys', 'df_dtype', 'extra', 'extra_ys', 'colperm']
 
 
 def eval_case(ctx, case, outs=None):
@@ -255,7 +341,7 @@ def shrink(ctx, case):
     for _ in range(4):
         changed = False
         for which in ('xs', 'ys'):
-            if cur[which] is None:
+            if cur[which] is None or (which == 'ys' and cur.get('same') == 'object'):
                 continue
             i = 0
             while i < len(cur[which]) and len(cur[which]) > (2 if which == 'xs' else 1):
@@ -264,11 +350,15 @@ def shrink(ctx, case):
                 for k in ('index_' + which,):
                     if cand.get(k) is not None:
                         cand[k] = None
+                if which == 'xs' and cur.get('same') == 'object' and cur['ys'] is not None:
+                    cand['ys'] = list(cand['xs'])
                 if fails(cand):
                     cur, changed = cand, True
                 else:
                     i += 1
-        for k, v in (('container', 'list'), ('bins_container', 'list'), ('index_xs', None), ('index_ys', None), ('extra', [])):
+        for k, v in (('container', 'list'), ('container_ys', None), ('bins_container', 'list'), ('index_xs', None), ('index_ys', None), ('extra', []),
+                     ('extra_ys', None), ('spelling', 'kw'), ('normalize_kind', None), ('pseudo_kind', 'float'), ('metric_kw', None), ('custom_dtype', None),
+                     ('tuple_parts', 'list'), ('df_dtype', None), ('cols_ys', None), ('same', None)):
             if cur.get(k) not in (None, v, []):
                 cand = dict(cur)
                 cand[k] = v
@@ -385,6 +475,225 @@ def gen_tcr_case(rng, big=False):
     return rand_params(rng, case, 5 * max(w) * (2 if 'AB' == case['cols'] else 1))
 
 
+# ---------------------------------------------------------------------------------------------- wider inputs (coverage audit)
+# Input kinds the generators above never produce: further containers (numpy unicode array, tuple, pandas Index, Series with string / duplicated
+# labels, 'string' and 'category' dtype, a set), a different container / index for the second collection, the SAME object as both collections,
+# arguments by position / all by keyword, bin edges as Series / Index / uint8 / int16 / int32 / float32 / float64 arrays / NumPy scalars,
+# numpy.bool_ for normalize, further pseudocounts (tiny, large, non-dyadic, int / numpy scalar typed), weights that push distances beyond
+# 255 and 65535, strings that differ by case / blanks / symbols only, strings longer than 64 / 127 / 255 residues, distances exactly
+# on the last default edge, tables whose second argument has more columns / its own index / extra columns, the legacy tuple made of Series.
+WIDE_ALPHABETS = ['AB', 'ACDEFGHIKLMNPQRSTVWY', 'aAbB', 'A a', 'Cé中', 'AC-*', 'O0', 'ac']
+STR_CONTAINERS = ['list', 'ndarray', 'ustr', 'tuple', 'index', 'series', 'series', 'series_string', 'series_cat']
+BINS_CONTAINERS = ['list', 'ndarray', 'tuple', 'range', 'series', 'index', 'u8', 'i16', 'i32', 'f32', 'f64', 'floats', 'npscalars']
+WIDE_PCS = ['0', '1/2', '1', '3', '1/10', '1/1000', '1/1000000', '7/3', '250', '100000', '2']
+THRESHOLDS = [0, 1, 2, 24, 25, 63, 64, 65, 127, 128, 129, 254, 255, 256, 257, 511, 512, 32767, 32768, 65535, 65536, 65537]
+
+
+def rand_index(rng, n):
+    r = rng.random()
+    if r < 0.3:
+        idx = list(range(100, 100 + n))
+        rng.shuffle(idx)
+        return idx
+    if r < 0.6:
+        idx = ['r%d' % i for i in range(n)]
+        rng.shuffle(idx)
+        return idx
+    if r < 0.85:
+        return [rng.randrange(2) for _ in range(n)]             # duplicated labels (e.g. after pandas.concat)
+    return list(range(1, n + 1))                                # shifted by one: label i is position i - 1
+
+
+def big_edges(rng, weights, maxlen):
+    """increasing edges around the sizes where a narrow integer type wraps and around the attainable distances"""
+    wi, wd, ws = weights
+    att = sorted({a * wi + b * wd + c * ws for a in range(maxlen + 1) for b in range(maxlen + 1) for c in range(maxlen + 1) if a + b + c <= maxlen and max(a, b) + c <= maxlen})
+    pool = set(THRESHOLDS)
+    for v in rng.sample(att, min(len(att), 6)):
+        pool |= {v, v + 1, max(0, v - 1)}
+    vals = sorted(rng.sample(sorted(pool), rng.randint(2, min(9, len(pool)))))
+    if rng.random() < 0.6:
+        vals = sorted(set(vals) | {0, att[-1] + 1})              # covering: every pair is counted
+    return [str(v) for v in vals]
+
+
+def rand_params_wide(rng, case, maxd, edges=None):
+    case['normalize'] = rng.choice([True, False, None])
+    if case['normalize'] is not None and rng.random() < 0.3:
+        case['normalize_kind'] = 'npbool'
+    if rng.random() < 0.75:
+        case['pseudocount'] = rng.choice(WIDE_PCS)
+        case['pseudo_kind'] = rng.choice(['float', 'float', 'int', 'f64', 'f32'])
+    else:
+        case['pseudocount'] = None
+    if edges is not None:
+        case['bins'] = edges
+    elif rng.random() < 0.12:
+        case['bins'] = None
+    else:
+        case['bins'], _ = rand_edges(rng, maxd)
+    case['bins_container'] = rng.choice(BINS_CONTAINERS)
+    case['spelling'] = rng.choice(['kw', 'kw', 'positional', 'positional', 'allkw', 'seqs2kw'])
+    return case
+
+
+def gen_wide_string_case(rng):
+    alphabet = rng.choice(WIDE_ALPHABETS)
+    n = rng.randint(2, 10)
+    maxlen = rng.choice([1, 3, 6])
+    case = dict(kind='str', xs=rand_strings(rng, n, alphabet, maxlen), ys=None, cols=None)
+    case['container'] = rng.choice(STR_CONTAINERS)
+    r = rng.random()
+    if r < 0.15:                                # the same object as both collections: N * N cross pairs, the diagonal included
+        case['ys'], case['same'] = list(case['xs']), 'object'
+    elif r < 0.25:                              # an equal copy
+        case['ys'] = list(case['xs'])
+    elif r < 0.55:
+        case['ys'] = rand_strings(rng, rng.randint(1, 6), alphabet, maxlen) + (rng.sample(case['xs'], 1) if rng.random() < 0.7 else [])
+    if case['ys'] is not None and case.get('same') is None:
+        case['container_ys'] = rng.choice(STR_CONTAINERS)
+    m = rng.random()
+    edges = None
+    if m < 0.25:
+        case['metric'] = ['default']
+    elif m < 0.35:
+        case['metric'] = ['lev']
+    elif m < 0.6:
+        case['metric'] = ['wlev'] + [rng.choice([1, 1, 2, 3, 5]) for _ in range(3)]
+        case['metric_kw'] = rng.random() < 0.5
+    elif m < 0.8:                               # distances beyond 255 (and, rarely, beyond 65535) from short strings
+        huge = rng.random() < 0.12
+        base = rng.choice([30000, 40000]) if huge else rng.choice([100, 128, 255, 256, 300, 1000])
+        w = [base + rng.choice([0, 0, 1, 7]) for _ in range(3)]
+        if rng.random() < 0.5:
+            w[rng.randrange(3)] = rng.choice([1, 2])
+        case['metric'] = [rng.choice(['wlev', 'wlev', 'custom'])] + w
+        ml = 2 if huge else 3
+        case['xs'] = rand_strings(rng, 3 if huge else rng.randint(2, 5), alphabet, ml)
+        if case['ys'] is not None:
+            case['ys'] = list(case['xs']) if case.get('same') or rng.random() < 0.3 else rand_strings(rng, rng.randint(1, 3), alphabet, ml)
+        edges = big_edges(rng, w, ml)
+    else:
+        case['metric'] = ['custom'] + [rng.choice([1, 2, 3]) for _ in range(3)]
+        case['custom_dtype'] = rng.choice(['int64', 'float64', 'uint8', 'int32', 'uint16'])
+    if rng.random() < 0.12 and case.get('same') is None:
+        # a set: its elements are the positions (symmetric metric: no order is defined)
+        case['xs'] = sorted(set(case['xs']) | {'A', 'B'})
+        case['container'] = 'set'
+        if case['metric'][0] in ('wlev', 'custom'):
+            case['metric'][2] = case['metric'][1]
+        if case['ys'] is not None and rng.random() < 0.5:
+            case['ys'] = sorted(set(case['ys']))
+            case['container_ys'] = 'set'
+    for which in ('xs', 'ys'):
+        cont = case.get('container_ys') if which == 'ys' and case.get('container_ys') else case['container']
+        if case[which] is not None and cont.startswith('series') and rng.random() < 0.7 and not (which == 'ys' and case.get('same')):
+            case['index_' + which] = rand_index(rng, len(case[which]))
+    w = case['metric'][1:] or [1, 1, 1]
+    return rand_params_wide(rng, case, maxlen * max(w), edges)
+
+
+def gen_wide_tcr_case(rng):
+    case = gen_tcr_case(rng)
+    if case['kind'] == 'tuple':
+        case['tuple_parts'] = rng.choice(['series', 'mixed', 'ndarray', 'list'])
+    else:
+        if case['ys'] is not None:
+            r = rng.random()
+            if r < 0.5:
+                case['index_ys'] = rand_index(rng, len(case['ys']))
+            if case['cols'] in ('A', 'B') and rng.random() < 0.5:
+                # the second table has both chains, the first one only one: only that chain's metric is defined on both
+                case['cols_ys'] = 'AB'
+            if rng.random() < 0.4:
+                case['extra_ys'] = rng.choice([[], ['TRBJ'], ['TRAV', 'TRAJ', 'TRBV']])
+        elif rng.random() < 0.25:
+            case['ys'], case['same'] = [list(r) for r in case['xs']], 'object'
+        if rng.random() < 0.4:
+            case['index_xs'] = rand_index(rng, len(case['xs']))
+        if rng.random() < 0.3:
+            case['df_dtype'] = rng.choice(['string', 'category'])
+    w = case['metric'][1:] or [1, 1, 1]
+    rand_params_wide(rng, case, 5 * max(w) * (2 if 'AB' == case['cols'] else 1))
+    return case
+
+
+def mutate_long(rng, s, alphabet):
+    s = list(s)
+    for _ in range(rng.randint(1, 4)):
+        op = rng.choice('ids')
+        i = rng.randrange(len(s) + 1)
+        if op == 'i':
+            s.insert(i, rng.choice(alphabet))
+        elif s and op == 'd':
+            del s[min(i, len(s) - 1)]
+        elif s:
+            s[min(i, len(s) - 1)] = rng.choice(alphabet)
+    return ''.join(s)
+
+
+def gen_long_case(rng, lengths):
+    """strings longer than 64 / 127 / 255 residues (other code paths of the edit-distance engine, distances that do not fit a byte)"""
+    alphabet = rng.choice(['AC', 'ACDEFGHIKLMNPQRSTVWY', 'Cé'])
+    L = rng.choice(lengths)
+    base = ''.join(rng.choice(alphabet) for _ in range(L))
+    xs = [base, mutate_long(rng, base, alphabet)]
+    r = rng.random()
+    if r < 0.5:
+        xs.append(''.join(rng.choice(alphabet) for _ in range(rng.choice(lengths))))       # unrelated: a large distance
+    if r > 0.25:
+        xs.append(rng.choice(['', base[:L // 2], base[::-1], alphabet[0] * L]))
+    rng.shuffle(xs)
+    tcr = rng.random() < 0.25
+    if tcr:
+        cols = rng.choice(['A', 'B', 'AB'])
+        short = rand_strings(rng, len(xs), 'ACS', 4)
+        rows = [[x, t] if cols != 'B' else [t, x] for x, t in zip(xs, short)]
+        case = dict(kind='tcr', xs=rows, ys=None, cols=cols, metric=['default'] if rng.random() < 0.6 else [dict(A='alpha', B='beta', AB='cdr3')[cols], 1, 1, 1])
+        if rng.random() < 0.3:
+            case['ys'] = [list(rng.choice(rows))] + [['AC', 'CA']]
+    else:
+        case = dict(kind='str', xs=xs, ys=None, cols=None, container=rng.choice(['list', 'ndarray', 'ustr', 'series']))
+        if rng.random() < 0.3:
+            case['ys'] = [rng.choice(xs), mutate_long(rng, base, alphabet)][:rng.randint(1, 2)]
+        case['metric'] = rng.choice([['default'], ['default'], ['lev'], ['wlev', 1, 1, 2], ['wlev', 2, 1, 1], ['wlev', 1, 3, 2]])
+    wmax = max(case['metric'][1:] or [1])
+    maxd = (max(len(x) for x in xs) + 4) * wmax
+    r = rng.random()
+    if r < 0.2:
+        edges = None
+    elif r < 0.5:
+        edges = [str(k) for k in range(0, maxd + 2)]                                   # one bin per distance
+    else:
+        pool = sorted({v for v in THRESHOLDS + [3, 4, 5, L - 1, L, L + 1, L // 2, 2 * L, maxd, maxd + 1] if 0 <= v <= maxd + 1})
+        edges = [str(v) for v in sorted(rng.sample(pool, rng.randint(2, min(8, len(pool)))))]
+    rand_params_wide(rng, case, maxd, edges)
+    if edges is None:
+        case['bins'] = None
+    return case
+
+
+def gen_default_edge_case(rng):
+    """distances exactly on and next to the last default edge (24 belongs to the last bin, 25 is outside), default bins and the background bins"""
+    lens = rng.sample([0, 0, 1, 2, 22, 23, 24, 25, 26, 47, 48, 49, 50], rng.randint(2, 6))
+    ch = rng.choice('AC')
+    xs = [ch * k for k in lens]
+    if rng.random() < 0.5:
+        xs.append(ch * 24)
+        xs.append('')
+    rng.shuffle(xs)
+    if rng.random() < 0.3:
+        half = [[x[:len(x) // 2], x[len(x) // 2:]] for x in xs]                        # summed alpha + beta distances reach 24 / 25
+        case = dict(kind='tcr', xs=half, ys=None, cols='AB', metric=['default'])
+    else:
+        case = dict(kind='str', xs=xs, ys=None, cols=None, metric=rng.choice([['default'], ['lev']]), container=rng.choice(['list', 'ndarray', 'series']))
+    if rng.random() < 0.4:
+        case['ys'] = [rng.choice(case['xs']), case['xs'][0]][:rng.randint(1, 2)] + ([['', '']] if case['kind'] == 'tcr' else [''])
+    rand_params_wide(rng, case, 50, edges=None)
+    case['bins'] = None if rng.random() < 0.7 else [str(k) for k in range(25)]
+    return case
+
+
 # ---------------------------------------------------------------------------------------------- the check
 def report(ctx, case, res, site):
     kind, msg = res
@@ -394,6 +703,26 @@ def report(ctx, case, res, site):
         if r2 is not None and r2[0] == 'property':
             case, msg = small, r2[1]
     ctx.violation(kind, msg, dict(case=case), site=site)
+
+
+def count_options(ctx, case):
+    """evidence: which spellings / containers / sizes ran"""
+    for k in OPTION_KEYS:
+        v = case.get(k)
+        if v in (None, [], False, 'list', 'kw', 'float'):
+            continue
+        ctx.count('opt:%s%s' % (k, '' if isinstance(v, list) or v is True else '=%s' % v))
+    if case.get('pseudocount') not in (None, '0', '1/2', '1', '3'):
+        ctx.count('opt:pseudocount=%s' % case['pseudocount'])
+    flat = [x if isinstance(x, str) else x[0] + x[1] for c in (case['xs'], case['ys'] or []) for x in c]
+    L = max([len(x) for x in flat] + [0])
+    if L > 64:
+        ctx.count('opt:longest_string>%d' % (255 if L > 255 else 127 if L > 127 else 64))
+    w = max(case['metric'][1:] or [1])
+    if w >= 100:
+        ctx.count('opt:weights>=%d' % (30000 if w >= 30000 else 100))
+    if case.get('maxseqs') is not None:
+        ctx.count('opt:maxseqs')
 
 
 def run_cases(ctx, cases, site, vm_every=0):
@@ -414,6 +743,7 @@ def run_cases(ctx, cases, site, vm_every=0):
         ctx.count('input=' + case['kind'] + ('/' + case['cols'] if case['cols'] else ''))
         if sum(counts) < npairs:
             ctx.count('some_distance_outside_edges')
+        count_options(ctx, case)
         ctx.case(sample=dict(call=describe(case), counts=counts) if nt and k % 97 == 0 else None,
                  nontrivial_key=(describe(case),) if nt else None)
         res = eval_case(ctx, case, o)
@@ -447,16 +777,27 @@ def exhaustive_cases(rng, quick):
     return out
 
 
-def check_bins0(ctx, rng, n):
+def check_bins0(ctx, rng, n, wide_opts=False):
     import pyrepseq as prs
     from pyrepseq.metric import WeightedLevenshtein
     for _ in range(n):
         tcr = rng.random() < 0.4
-        case = gen_tcr_case(rng) if tcr else gen_string_case(rng)
-        case['extra'], case['container'] = [], 'list'
-        if case['kind'] == 'tuple':
-            case['kind'] = 'tcr'
-        xs, ys = make_coll(case, 'xs'), make_coll(case, 'ys')
+        if wide_opts:
+            # further containers / indexes / dtypes / the legacy tuple / the same object twice, bins = 0 as a NumPy integer or by position
+            case = gen_wide_tcr_case(rng) if tcr else gen_wide_string_case(rng)
+            for k in ('cols_ys', 'extra_ys'):         # pc compares whole rows: both tables get the same columns here
+                case.pop(k, None)
+            case['extra'] = []
+            for k in ('container', 'container_ys'):
+                if case.get(k) == 'set':
+                    case[k] = 'list'
+        else:
+            case = gen_tcr_case(rng) if tcr else gen_string_case(rng)
+            case['extra'], case['container'] = [], 'list'
+            if case['kind'] == 'tuple':
+                case['kind'] = 'tcr'
+        xs = make_coll(case, 'xs')
+        ys = xs if (case.get('same') == 'object' and case['ys'] is not None) else make_coll(case, 'ys')
         rows, rows2 = case_rows(case)
         if tcr:        # pc compares whole rows: only the columns present take part
             keep = (lambda r: (r[0] if 'A' in case['cols'] else '', r[1] if 'B' in case['cols'] else ''))
@@ -465,16 +806,28 @@ def check_bins0(ctx, rng, n):
         num, den = ctx.oracle.run([('api_c05_bins0', [rows, rows2])])[0]
         kw = rng.choice([{}, dict(normalize=False), dict(pseudocount=0.5), dict(maxseqs=2), dict(metric=WeightedLevenshtein(2, 1, 3)) if not tcr else {}])
         args = (xs,) if ys is None else (xs, ys)
-        impl = call_impl(prs.pcDelta, *args, bins=0, **kw)
+        zero, how = 0, 'bins=0'
+        if wide_opts:
+            zero = rng.choice([0, np.int64(0), np.int32(0)])
+            how = 'bins=%s(0)' % type(zero).__name__
+        if wide_opts and rng.random() < 0.4:
+            how += ' by position'
+            pos = [ys, kw.pop('metric', None), zero] + ([kw.pop('normalize', True), kw.pop('pseudocount', 0.0), kw.pop('maxseqs', None)] if kw else [])
+            impl = call_impl(prs.pcDelta, xs, *pos)
+        else:
+            impl = call_impl(prs.pcDelta, *args, bins=zero, **kw)
         ref = call_impl(prs.pc, *args)
-        ctx.count('bins=0')
+        ctx.count('bins=0' + (' (wide)' if wide_opts else ''))
+        if wide_opts:
+            count_options(ctx, dict(case, bins_container=None, pseudocount=None, normalize_kind=None, pseudo_kind=None, spelling=None, metric=['default'],
+                                    metric_kw=None, custom_dtype=None))
         ctx.case(nontrivial_key=('bins0', repr(rows), repr(rows2)) if 0 < num < den else None)
         ok = impl[0] == 'ok' and np.ndim(impl[1]) == 0 and den > 0 and close(float(impl[1]), Fraction(num, den)) \
             and ref[0] == 'ok' and float(ref[1]) == float(impl[1])
         if not ok:
-            ctx.violation('property', 'pcDelta(%s%s, bins=0, %s) = %s but pc of the same arguments is %s (model: %d/%d coinciding pairs)' % (
-                case['xs'], '' if ys is None else ', %s' % case['ys'], kw, impl, ref, num, den),
-                dict(case=dict(case, bins='0'), kw=repr(kw)), site='distance.pcDelta[bins=0]')
+            ctx.violation('property', 'pcDelta(%s%s, %s, %s) = %s but pc of the same arguments is %s (model: %d/%d coinciding pairs)%s' % (
+                case['xs'], '' if ys is None else ', %s' % case['ys'], how, kw, impl, ref, num, den, describe(case)[describe(case).find(' {'):] if ' {' in describe(case) else ''),
+                dict(case=dict(case, bins='0'), kw=repr(kw), how=how), site='distance.pcDelta[bins=0]')
             return
 
 
@@ -499,8 +852,37 @@ def check_zero_bin(ctx, rng, n):
             return
 
 
-def check_maxseqs(ctx, rng, n):
-    import pyrepseq as prs
+def eval_maxseqs(ctx, case, seeds):
+    """None, or why the result of case (with maxseqs) is not the histogram of a sub-sample of exactly min(N, maxseqs) elements;
+    seeds: NumPy seeds, one call each (the first one also in normalised form)"""
+    rows, rows2 = case_rows(case)
+    kind, wi, wd, ws = model_metric(case)
+    edges = [fr(x) for x in case['bins']]
+    m, N = case['maxseqs'], len(case['xs'])
+    subs = ctx.oracle.run([('api_c05_sub_counts', [kind, wi, wd, ws, rows, rows2, edges, m])])[0]
+    allowed = {tuple(s) for s in subs}
+    m1 = min(N, m)
+    npairs = m1 * (m1 - 1) // 2 if case['ys'] is None else m1 * min(len(case['ys']), m)
+    covering = edges[0] <= 0 and edges[-1] >= 39
+    for rep, seed in enumerate(seeds):
+        np.random.seed(seed)
+        impl = call_pcdelta(case)
+        ok = impl[0] == 'ok' and isinstance(impl[1], np.ndarray) and tuple(int(x) for x in impl[1]) in allowed and (not covering or int(sum(impl[1])) == npairs)
+        if ok and rep == 0:
+            np.random.seed(seed + 1)
+            nrm = call_pcdelta(case, normalize=True)     # normalised form of SOME admissible sub-sample
+            ok = nrm[0] == 'ok' and any(
+                (sum(s) == 0 and all(not math.isfinite(x) for x in nrm[1])) or
+                (sum(s) > 0 and all(close(float(x), Fraction(c, sum(s))) for x, c in zip(nrm[1], s))) for s in allowed)
+            impl = nrm if not ok else impl
+        if not ok:
+            return (len(allowed), '%s [numpy.random.seed(%d)] = %s is not the histogram of any sub-sample of exactly min(N, maxseqs) = %d elements '
+                    '(admissible histograms, trailing zeros cut: %s%s)' % (describe(case), seed, show(impl), m1, sorted({tuple(trim(a)) for a in allowed})[:6],
+                                                                          ', total %d' % npairs if covering else ''))
+    return (len(allowed), None)
+
+
+def check_maxseqs(ctx, rng, n, wide_opts=False):
     wide = [Fraction(k) for k in range(0, 40)]
     for t in range(n):
         tcr = rng.random() < 0.35
@@ -515,34 +897,486 @@ def check_maxseqs(ctx, rng, n):
             M = rng.randint(1, 6)
             case['ys'] = ([list(p) for p in zip(rand_strings(rng, M, 'AC', 4), rand_strings(rng, M, 'AC', 4))] if tcr
                           else rand_strings(rng, M, 'ACD', 5))
-        m = rng.randint(2, N + 2)
+        m = rng.randint(1 if wide_opts else 2, N + 2)
         narrow = rng.random() < 0.4
         edges = [Fraction(k) for k in range(0, 4)] if narrow else wide
         case.update(bins=[str(e) for e in edges], bins_container='list', normalize=False, pseudocount=None, maxseqs=m)
-        rows, rows2 = case_rows(case)
-        kind, wi, wd, ws = model_metric(case)
-        subs = ctx.oracle.run([('api_c05_sub_counts', [kind, wi, wd, ws, rows, rows2, edges, m])])[0]
-        allowed = {tuple(s) for s in subs}
-        m1 = min(N, m)
-        npairs = m1 * (m1 - 1) // 2 if case['ys'] is None else m1 * min(len(case['ys']), m)
+        if wide_opts:
+            # maxseqs = 1, NumPy integer, further containers, explicit metrics, arguments by position, the same object twice (two independent draws)
+            case['maxseqs_kind'] = rng.choice(['int', 'np'])
+            case['spelling'] = rng.choice(['kw', 'positional', 'allkw'])
+            case['bins_container'] = rng.choice(['list', 'range', 'ndarray'])
+            cross = case['ys'] is not None
+            if tcr:
+                r = rng.random()
+                if r < 0.3:
+                    case['kind'], case['tuple_parts'] = 'tuple', rng.choice(['list', 'series', 'mixed'])
+                elif r < 0.7:
+                    case['cols'] = rng.choice(['A', 'B', 'AB'])
+                    case['index_xs'] = rand_index(rng, N)
+                    if rng.random() < 0.5:
+                        case['extra'] = ['TRBV']
+                if rng.random() < 0.5:
+                    ok = [k for k, need in (('alpha', 'A'), ('beta', 'B')) if need in case['cols']] + (['cdr3'] if case['cols'] == 'AB' else [])
+                    w = [rng.choice([1, 2, 3]) for _ in range(3)]
+                    case['metric'] = [rng.choice(ok), w[0], w[1] if cross else w[0], w[2]]       # one collection: the order of the draw is free, so a symmetric metric
+            else:
+                case['container'] = rng.choice(['list', 'ndarray', 'ustr', 'tuple', 'index', 'series', 'series'])
+                if case['container'] == 'series':
+                    case['index_xs'] = rand_index(rng, N)
+                if cross:
+                    case['container_ys'] = rng.choice(['list', 'ndarray', 'ustr', 'index', 'series'])
+                r = rng.random()
+                if r < 0.5:
+                    w = [rng.choice([1, 2, 3]) for _ in range(3)]
+                    case['metric'] = [rng.choice(['wlev', 'custom']), w[0], w[1] if cross else w[0], w[2]]
+                elif r < 0.65:
+                    case['metric'] = ['lev']
+            if not cross and rng.random() < 0.2:
+                case['ys'], case['same'] = [x if isinstance(x, str) else list(x) for x in case['xs']], 'object'
+        seeds = [rng.randrange(2 ** 31) for _ in range(6)]
+        nallowed, why = eval_maxseqs(ctx, case, seeds)
         ctx.count('maxseqs<N' if m < N else 'maxseqs>=N')
-        ctx.case(nontrivial_key=('maxseqs', describe(case)) if len(allowed) > 1 else None)
-        for rep in range(6):
-            np.random.seed(rng.randrange(2 ** 31))
-            impl = call_pcdelta(case)
-            ok = impl[0] == 'ok' and tuple(int(x) for x in impl[1]) in allowed and (narrow or int(sum(impl[1])) == npairs)
-            if ok and rep == 0:
-                np.random.seed(rng.randrange(2 ** 31))
-                nrm = call_pcdelta(case, normalize=True)     # normalised form of SOME admissible sub-sample
-                ok = nrm[0] == 'ok' and any(
-                    (sum(s) == 0 and all(not math.isfinite(x) for x in nrm[1])) or
-                    (sum(s) > 0 and all(close(float(x), Fraction(c, sum(s))) for x, c in zip(nrm[1], s))) for s in allowed)
-                impl = nrm if not ok else impl
-            if not ok:
-                ctx.violation('property', '%s = %s is not the histogram of any sub-sample of exactly min(N, maxseqs) = %d elements '
-                              '(admissible histograms, trailing zeros cut: %s%s)' % (describe(case), show(impl), m1, sorted({tuple(trim(a)) for a in allowed})[:6], '' if narrow else ', total %d' % npairs),
-                              dict(case=case), site='distance.pcDelta[maxseqs]')
+        if wide_opts:
+            count_options(ctx, case)
+            if m == 1:
+                ctx.count('maxseqs=1')
+        ctx.case(nontrivial_key=('maxseqs', describe(case)) if nallowed > 1 else None)
+        if why is not None:
+            ctx.violation('property', why, dict(case=case, seeds=seeds), site='distance.pcDelta[maxseqs]')
+            return
+
+
+# ---------------------------------------------------------------------------------------------- maxseqs: large inputs, randomness
+def compositions(total, caps):
+    """all (c_1..c_k) with sum = total and 0 <= c_i <= caps[i]"""
+    if len(caps) == 1:
+        return [(total,)] if 0 <= total <= caps[0] else []
+    return [(c,) + rest for c in range(0, min(total, caps[0]) + 1) for rest in compositions(total - c, caps[1:])]
+
+
+def sub_multiset_hists(ctx, lc):
+    """raw histograms of ALL sub-collections of exactly min(N, maxseqs) elements (both collections) of collections given as multisets of a few
+    distinct elements: a sub-collection is determined by how many copies c_u <= m_u of each distinct element it holds, and its histogram follows
+    from the model's proved counts on the distinct elements (as in multiset_counts)"""
+    small = dict(lc, xs=[e for e, _ in lc['mx']], ys=None if lc['my'] is None else [e for e, _ in lc['my']])
+    dx, dy = case_rows(small)
+    kind, wi, wd, ws = model_metric(small)
+    edges = [fr(x) for x in lc['bins']]
+    m = lc['maxseqs']
+    capx = [c for _, c in lc['mx']]
+    reqs = []
+    if dy is None:
+        for i, u in enumerate(dx):
+            for j in range(i, len(dx)):
+                reqs.append(('api_c05_counts', [kind, wi, wd, ws, [u, dx[j]], None, edges]))
+    else:
+        for u in dx:
+            for v in dy:
+                reqs.append(('api_c05_counts', [kind, wi, wd, ws, [u], [v], edges]))
+    outs = ctx.oracle.run(reqs)
+    for o in outs:
+        if isinstance(o, Exception):
+            raise o
+    H = np.array(outs, dtype=np.int64)
+    allowed = set()
+    cxs = compositions(min(m, sum(capx)), capx)
+    if dy is None:
+        for c in cxs:
+            wts = []
+            for i in range(len(dx)):
+                for j in range(i, len(dx)):
+                    wts.append(c[i] * (c[i] - 1) // 2 if i == j else c[i] * c[j])
+            allowed.add(tuple(int(x) for x in np.array(wts, dtype=np.int64) @ H))
+    else:
+        capy = [c for _, c in lc['my']]
+        cys = compositions(min(m, sum(capy)), capy)
+        for c in cxs:
+            for d in cys:
+                wts = [a * b for a in c for b in d]
+                allowed.add(tuple(int(x) for x in np.array(wts, dtype=np.int64) @ H))
+    return allowed
+
+
+def eval_maxseqs_large(ctx, lc, seeds):
+    allowed = sub_multiset_hists(ctx, lc)
+    case = large_full(lc)
+    N, m = len(case['xs']), lc['maxseqs']
+    m1 = min(N, m)
+    npairs = m1 * (m1 - 1) // 2 if case['ys'] is None else m1 * min(len(case['ys']), m)
+    for seed in seeds:
+        np.random.seed(seed)
+        impl = call_pcdelta(case)
+        ok = impl[0] == 'ok' and isinstance(impl[1], np.ndarray) and np.issubdtype(impl[1].dtype, np.integer) and tuple(int(x) for x in impl[1]) in allowed \
+            and int(sum(impl[1])) == npairs
+        if not ok:
+            return (len(allowed), '%s [numpy.random.seed(%d)] = %s is not the histogram of any sub-sample of exactly min(N, maxseqs) = %d elements of the first'
+                    '%s collection (total %d pairs; %d admissible histograms, e.g. %s)' % (
+                        describe_large(lc), seed, show(impl), m1, '' if case['ys'] is None else ' and min(%d, maxseqs) of the second' % len(case['ys']),
+                        npairs, len(allowed), sorted(allowed)[:3]))
+    return (len(allowed), None)
+
+
+def gen_maxseqs_large(rng, sizes):
+    tcr = rng.random() < 0.3
+    N = rng.choice(sizes)
+    # should the library fail to cut the collections down, the call costs N * N (resp. N * M) distances: keep that below about 1e9
+    cross = rng.random() < 0.5 or N > 40000
+    m = rng.choice([1, 2, 3, 5, 10, 25, 40])
+    kx = rng.randint(2, 3)
+    if tcr:
+        def elems(k):
+            return [[''.join(rng.choice('AC') for _ in range(rng.randint(0, 3))), ''.join(rng.choice('AC') for _ in range(rng.randint(0, 3)))] for _ in range(k)]
+        lc = dict(kind='tcr', cols=rng.choice(['A', 'B', 'AB']), metric=['default'])
+        maxd = 6
+    else:
+        def elems(k):
+            return [''.join(rng.choice('ACD') for _ in range(rng.randint(0, 3))) for _ in range(k)]
+        w = rng.choice([1, 1, 2, 3])
+        lc = dict(kind='str', cols=None, metric=rng.choice([['default'], ['lev'], ['wlev', w, w, rng.choice([1, 2, 3])]]),
+                  container=rng.choice(['list', 'ndarray', 'ustr', 'series', 'index']))
+        maxd = 3 * max(lc['metric'][1:] or [1])
+
+    def split(el, n):
+        cuts = sorted(rng.sample(range(1, n), len(el) - 1)) if len(el) > 1 else []
+        return [[e, b - a] for e, a, b in zip(el, [0] + cuts, cuts + [n])]
+    lc['mx'] = split(elems(kx), N)
+    lc['my'] = None
+    if cross:
+        M = rng.choice([1, 2, max(1, m - 1), m, m + 1, 3 * m + 1, 500] + ([rng.choice([x for x in sizes if x <= 40000])] if N <= 40000 else []))
+        ky = 1 if M < 2 else rng.randint(1, 2)
+        lc['my'] = split(elems(ky), M)
+    lc['seed'] = rng.randrange(2 ** 30)
+    lc.update(bins=[str(v) for v in range(0, maxd + 2)], bins_container=rng.choice(['range', 'list', 'ndarray']), normalize=False, pseudocount=None,
+              maxseqs=m, maxseqs_kind=rng.choice(['int', 'np']), spelling=rng.choice(['kw', 'positional']))
+    return lc
+
+
+def check_maxseqs_large(ctx, rng, n, sizes):
+    """collections of 50 .. 66000 elements (2-3 distinct ones) cut down to 1 .. 40: the result must be the histogram of one of the sub-multisets of
+    exactly min(N, maxseqs) elements; the enumeration of sub-multisets is first compared with the model's own enumeration of sub-collections on a
+    scaled-down copy"""
+    plan = []
+    for t in range(n):
+        if t % 4 == 3:
+            alphabet = rng.choice(['ACDE', 'ACDEFGHIKLMNPQRSTVWY'])
+            dc = dict(N=rng.choice([s for s in sizes if 5000 <= s <= 40000]), L=rng.choice([9, 10] if len(alphabet) == 4 else [7, 8]), alphabet=alphabet, seed=rng.randrange(2 ** 30),
+                      m=rng.choice([700, 1000]), container=rng.choice(['list', 'ndarray', 'ustr', 'series']), cross=rng.random() < 0.25)
+            plan.append((dc['N'], t, 'distinct', dc, [rng.randrange(2 ** 31) for _ in range(2)]))
+        else:
+            lc = gen_maxseqs_large(rng, sizes)
+            plan.append((sum(c for _, c in lc['mx']), t, 'multiset', lc, [rng.randrange(2 ** 31) for _ in range(3)]))
+    # smallest first: a library that does not cut the collections down at all is reported before the largest ones are tried
+    for _, _, what, lc, seeds in sorted(plan, key=lambda x: x[:2]):
+        if what == 'distinct':
+            dc = lc
+            why = eval_maxseqs_distinct(ctx, dc, seeds)
+            ctx.count('maxseqs_large:all distinct N>%d' % max(x for x in (999, 4999, 2 ** 15, 2 ** 16) if dc['N'] > x))
+            ctx.case(nontrivial_key=('maxseqs-distinct', repr(dc)))
+            if why is not None:
+                ctx.violation('property', why, dict(distinct=dc, seeds=seeds), site='distance.pcDelta[maxseqs, large collections]')
                 return
+            continue
+        mini = dict(lc, mx=rescale(lc['mx'], 2 * len(lc['mx']) + 1), my=None if lc['my'] is None else rescale(lc['my'], min(4, sum(c for _, c in lc['my']))),
+                    maxseqs=min(lc['maxseqs'], 3))
+        mc = large_full(mini)
+        rows, rows2 = case_rows(mc)
+        kind, wi, wd, ws = model_metric(mc)
+        subs = ctx.oracle.run([('api_c05_sub_counts', [kind, wi, wd, ws, rows, rows2, [fr(x) for x in lc['bins']], mini['maxseqs']])])[0]
+        if isinstance(subs, Exception) or {tuple(x) for x in subs} != sub_multiset_hists(ctx, mini):
+            ctx.violation('correspondence', 'harness: sub-multiset histograms differ from the model\'s sub-collection histograms on %s' % describe_large(mini),
+                          dict(large=mini), site='harness.c05[sub-multisets]')
+            return
+        nallowed, why = eval_maxseqs_large(ctx, lc, seeds)
+        n1 = sum(c for _, c in lc['mx'])
+        ctx.count('maxseqs_large:N>%d' % max(t for t in (0, 127, 255, 999, 4999, 2 ** 15, 2 ** 16) if n1 > t))
+        ctx.case(nontrivial_key=('maxseqs-large', describe_large(lc)) if nallowed > 1 else None)
+        if why is not None:
+            ctx.violation('property', why, dict(large=lc, seeds=seeds), site='distance.pcDelta[maxseqs, large collections]')
+            return
+
+
+def distinct_strings(dc):
+    """N pairwise different strings of length L (deterministic in dc['seed'])"""
+    import random
+    k, L = len(dc['alphabet']), dc['L']
+    out = []
+    for v in random.Random(dc['seed']).sample(range(k ** L), dc['N']):
+        s = ''
+        for _ in range(L):
+            s += dc['alphabet'][v % k]
+            v //= k
+        out.append(s)
+    return out
+
+
+def eval_maxseqs_distinct(ctx, dc, seeds):
+    """thousands of pairwise DIFFERENT strings cut down to hundreds: whatever is drawn, m distinct positions hold m different strings, so no pair is at
+    distance 0 (Levenshtein distance 0 iff equal: C05_zero_bin) and edges covering 0 .. L count all m(m-1)/2 pairs (C05_total, C05_maxseqs); against
+    one of the strings as second collection: m cross pairs, at most one of them at distance 0"""
+    import pyrepseq as prs
+    xs = str_container(distinct_strings(dc), dc['container'], None)
+    m, L = dc['m'], dc['L']
+    for seed in seeds:
+        np.random.seed(seed)
+        if dc['cross']:
+            r = call_impl(prs.pcDelta, xs, [distinct_strings(dc)[seed % dc['N']]], bins=range(L + 2), normalize=False, maxseqs=m)
+            want, zmax = m, 1
+        else:
+            r = call_impl(prs.pcDelta, xs, bins=range(L + 2), normalize=False, maxseqs=m)
+            want, zmax = m * (m - 1) // 2, 0
+        if not (r[0] == 'ok' and isinstance(r[1], np.ndarray) and len(r[1]) == L + 1 and int(r[1].sum()) == want and int(r[1][0]) <= zmax):
+            return ('pcDelta(<%d pairwise different strings of length %d over %r as %s>%s, bins=range(%d), normalize=False, maxseqs=%d) [numpy.random.seed(%d)] = %s: a sub-sample '
+                    'of exactly %d elements has %d pairs, at most %d of them at distance 0' % (dc['N'], L, dc['alphabet'], dc['container'], ', [one of them]' if dc['cross'] else '',
+                                                                                              L + 2, m, seed, show(r), m, want, zmax))
+    return None
+
+
+GOLOMB = [0, 1, 4, 9, 15, 22, 32, 34]       # all differences distinct: the distances among 'A' * k name the elements that were drawn
+
+
+def random_config(rng):
+    N = rng.randint(5, 8)
+    role = rng.choice(['first', 'second', 'only'])
+    lens = GOLOMB[:N] if role == 'only' else list(range(1, N + 1))
+    rng.shuffle(lens)
+    return dict(N=N, m=rng.randint(N // 2 + 1, N - 1), role=role, lens=lens, form=rng.choice(['list', 'ndarray', 'ustr', 'series', 'tcrA', 'tcrB', 'tcrAB', 'tuple']))
+
+
+def eval_random(ctx, cfg, seeds):
+    """'a random sub-sample': over many calls (one NumPy seed each) the elements drawn are not always the same, every element is drawn at least once and
+    every PAIR of elements is drawn together at least once (a pair never drawn together in R calls has probability (1 - m(m-1)/(N(N-1)))**R for a
+    uniform draw; R = 80, 5 <= N <= 8, N/2 < m < N: below 1e-10 for all pairs together) - a fixed, contiguous, strided or blockwise choice fails this.
+    The elements drawn are read off the histogram: strings 'A' * k of distinct lengths against '' (distance k), or with lengths on a Golomb ruler
+    among themselves."""
+    import pyrepseq as prs
+    N, m, role, lens, form = cfg['N'], cfg['m'], cfg['role'], cfg['lens'], cfg['form']
+    strs = ['A' * k for k in lens]
+
+    def coll(items):
+        if form in ('tcrA', 'tcrB', 'tcrAB'):
+            d = {}
+            if form != 'tcrB':
+                d['CDR3A'] = list(items)
+            if form != 'tcrA':
+                d['CDR3B'] = list(items) if form == 'tcrB' else ['CS'] * len(items)
+            return pd.DataFrame(d)
+        if form == 'tuple':
+            return (list(items), ['CS'] * len(items))
+        return str_container(list(items), form, None)
+    big, other = coll(strs), coll(['', ''])
+    nb = max(lens) + 2
+    seen, drawn, together = set(), set(), set()
+    for seed in seeds:
+        np.random.seed(seed)
+        if role == 'only':
+            r = call_impl(prs.pcDelta, big, bins=range(nb), normalize=False, maxseqs=m)
+        elif role == 'first':
+            r = call_impl(prs.pcDelta, big, other, bins=range(nb), normalize=False, maxseqs=m)
+        else:
+            r = call_impl(prs.pcDelta, other, big, bins=range(nb), normalize=False, maxseqs=m)
+        if r[0] != 'ok' or not isinstance(r[1], np.ndarray) or len(r[1]) != nb - 1:
+            return 'pcDelta(%s) with maxseqs=%d gave %s' % (cfg, m, show(r))
+        h = [int(x) for x in r[1]]
+        if role == 'only':          # each distance occurs between exactly one pair of elements
+            pair = {abs(a - b): (a, b) for a in lens for b in lens if a < b}
+            sub = {k for d, c in enumerate(h) if c and d in pair for k in pair[d]}
+            okh = all(c in (0, 1) for c in h) and len(sub) == m and sorted(abs(a - b) for a in sub for b in sub if a < b) == [d for d, c in enumerate(h) if c]
+        else:
+            sub = {k for k in lens if h[k]}
+            okh = len(sub) == m and all(h[k] == 2 for k in sub) and sum(h) == 2 * m
+        if not okh:
+            return ('pcDelta(%s, maxseqs=%d) [numpy.random.seed(%d), %s collection = strings \'A\' * k for k in %s as %s] = %s is not the histogram of a sub-sample of exactly %d elements'
+                    % ('seqs' if role == 'only' else "seqs, ['', '']" if role == 'first' else "['', ''], seqs", m, seed, role, lens, form, h, m))
+        seen.add(frozenset(sub))
+        drawn |= sub
+        together |= {(a, b) for a in sub for b in sub if a < b}
+    if len(seen) < 2:
+        return ("maxseqs=%d, %s collection = strings 'A' * k for k in %s as %s: %d calls with different NumPy seeds ALWAYS drew the same elements (lengths %s) - "
+                "not a random sub-sample" % (m, role, lens, form, len(seeds), sorted(next(iter(seen)))))
+    if drawn != set(lens):
+        return ("maxseqs=%d, %s collection = strings 'A' * k for k in %s as %s: in %d calls with different NumPy seeds the elements at positions %s were NEVER drawn "
+                "(probability below 1e-9 for a random sub-sample)" % (m, role, lens, form, len(seeds), [i for i, k in enumerate(lens) if k not in drawn]))
+    missing = [(lens.index(a), lens.index(b)) for a in lens for b in lens if a < b and (a, b) not in together]
+    if missing:
+        return ("maxseqs=%d, %s collection = strings 'A' * k for k in %s as %s: in %d calls with different NumPy seeds the elements at positions %s were NEVER drawn "
+                "together, only the combinations %s occurred (probability below 1e-10 for a random sub-sample of %d out of %d)" % (
+                    m, role, lens, form, len(seeds), [tuple(sorted(p)) for p in missing][:6], sorted(sorted(lens.index(k) for k in sb) for sb in seen)[:8], m, len(lens)))
+    return None
+
+
+def check_maxseqs_random(ctx, rng, n, R=80):
+    for _ in range(n):
+        cfg = random_config(rng)
+        seeds = [rng.randrange(2 ** 31) for _ in range(R)]
+        why = eval_random(ctx, cfg, seeds)
+        ctx.count('maxseqs_random:%s/%s' % (cfg['role'], cfg['form']))
+        ctx.case(nontrivial_key=('maxseqs-random', repr(cfg)))
+        if why is not None:
+            ctx.violation('property', why, dict(random=cfg, seeds=seeds), site='distance.pcDelta[maxseqs, random draw]')
+            return
+
+
+# ---------------------------------------------------------------------------------------------- call histories on shared objects
+# One Metric object, one preallocated array / table REFILLED IN PLACE, one bins array shifted in place, results of earlier calls overwritten by the
+# caller - each call must still return the histogram of the CURRENT contents (a result remembered per object identity, a buffer shared between
+# calls, state kept in the Metric object or in the module would show here), and arrays returned earlier must not change afterwards.
+def gen_history(rng, steps):
+    tcr = rng.random() < 0.4
+    N, M = rng.randint(3, 7), rng.randint(1, 4)
+    if tcr:
+        cols = rng.choice(['A', 'B', 'AB', 'AB'])
+        ok = [k for k, need in (('alpha', 'A'), ('beta', 'B')) if need in cols] + (['cdr3'] if cols == 'AB' else [])
+        metric = ['default'] if rng.random() < 0.5 else [rng.choice(ok)] + [rng.choice([1, 1, 2]) for _ in range(3)]
+        hist = dict(kind='tcr', cols=cols, metric=metric, fill=rng.choice(['column', 'cells', 'loc']))
+    else:
+        metric = rng.choice([['default'], ['lev'], ['wlev'] + [rng.choice([1, 2, 3]) for _ in range(3)], ['custom'] + [rng.choice([1, 2]) for _ in range(3)]])
+        hist = dict(kind='str', cols=None, metric=metric, container=rng.choice(['ndarray', 'ndarray', 'list', 'series']))
+    nb = rng.randint(3, 8)
+    hist['bins0'] = list(range(nb))
+    hist['steps'] = []
+    for k in range(steps):
+        if tcr:
+            xs = [list(p) for p in zip(rand_strings(rng, N, 'ACS', 4), rand_strings(rng, N, 'ACS', 4))]
+            ys = [list(p) for p in zip(rand_strings(rng, M, 'ACS', 4), rand_strings(rng, M, 'ACS', 4))]
+        else:
+            xs, ys = rand_strings(rng, N, 'ACD', 5), rand_strings(rng, M, 'ACD', 5)
+        if k and rng.random() < 0.25:
+            xs = hist['steps'][-1]['xs']                  # the same contents again
+        hist['steps'].append(dict(xs=xs, ys=ys, two=rng.random() < 0.4, shift=rng.choice([0, 0, 1, 2]) if k else 0,
+                                  normalize=rng.choice([True, False, False, None]), pseudocount=rng.choice([None, None, '1/2', '3']),
+                                  bins_default=rng.random() < 0.15, twice=rng.random() < 0.3,
+                                  spoil=rng.choice(['', '', 'zero', 'scale']), between=rng.choice(['', '', 'pc', 'background', 'bins0', 'other'])))
+    return hist
+
+
+def eval_history(ctx, hist):
+    """None or (kind, message): the first call of the history whose result is not the histogram of the current contents"""
+    import pyrepseq as prs
+    metric = make_metric(hist['metric'], hist)           # ONE object for the whole history (None: the default is looked up in every call)
+    s0 = hist['steps'][0]
+    N, M = len(s0['xs']), len(s0['ys'])
+    if hist['kind'] == 'tcr':
+        def table(rows):
+            d = {}
+            if 'A' in hist['cols']:
+                d['CDR3A'] = [a for a, b in rows]
+            if 'B' in hist['cols']:
+                d['CDR3B'] = [b for a, b in rows]
+            return pd.DataFrame(d)
+        bx, by = table(s0['xs']), table(s0['ys'])
+
+        def fill(df, rows):
+            for ci, name in enumerate(('CDR3A', 'CDR3B')):
+                if name not in df:
+                    continue
+                vals = [r[ci] for r in rows]
+                if hist['fill'] == 'column':
+                    df[name] = vals
+                elif hist['fill'] == 'loc':
+                    df.loc[:, name] = vals
+                else:
+                    for i, v in enumerate(vals):
+                        df.iat[i, list(df.columns).index(name)] = v
+    else:
+        cont = hist.get('container', 'ndarray')
+        bx, by = str_container(s0['xs'], cont, None), str_container(s0['ys'], cont, None)
+
+        def fill(buf, items):
+            if isinstance(buf, pd.Series):
+                buf.iloc[:] = items
+            else:
+                buf[:] = items
+    bins = np.array(hist['bins0'])
+    cases = []
+    cur = list(hist['bins0'])
+    for st in hist['steps']:
+        cur = [v + st['shift'] for v in cur]
+        cases.append(dict(kind=hist['kind'], cols=hist['cols'], metric=hist['metric'], xs=st['xs'], ys=st['ys'] if st['two'] else None,
+                          bins=None if st['bins_default'] else [str(v) for v in cur], normalize=st['normalize'], pseudocount=st['pseudocount']))
+    reqs = []
+    for c in cases:
+        reqs += oracle_requests(c)
+    outs = ctx.oracle.run(reqs)
+    earlier = []
+    done = []
+    for k, (st, case) in enumerate(zip(hist['steps'], cases)):
+        fill(bx, st['xs'])
+        fill(by, st['ys'])
+        if st['shift']:
+            bins += st['shift']
+        counts = outs[2 * k]
+        if isinstance(counts, Exception):
+            return ('correspondence', 'oracle rejected step %d of the history: %s' % (k, counts))
+        exp = expected_from(case, counts, ctx)
+        kw = {}
+        if metric is not None:
+            kw['metric'] = metric
+        if not st['bins_default']:
+            kw['bins'] = bins
+        if st['normalize'] is not None:
+            kw['normalize'] = st['normalize']
+        if st['pseudocount'] is not None:
+            kw['pseudocount'] = float(fr(st['pseudocount']))
+        args = (bx, by) if st['two'] else (bx,)
+        norm = True if st['normalize'] is None else st['normalize']
+        for rep in range(2 if st['twice'] else 1):
+            impl = call_impl(prs.pcDelta, *args, **kw)
+            done.append('%d%s: %s' % (k, 'ab'[rep] if st['twice'] else '', describe(case)))
+            if not vec_ok(impl, exp, integral=not norm):
+                return ('property', 'call %s of a history on shared objects (one %s refilled in place, one bins array shifted in place, one Metric object %s) returned %s but the '
+                        '%s of the current contents is %s (raw counts %s). Calls so far: %s' % (
+                            done[-1].split(':')[0], 'table' if hist['kind'] == 'tcr' else hist.get('container', 'ndarray'), hist['metric'], show(impl),
+                            'raw counts' if not norm else 'normalised histogram', ['nan' if q is None else str(q) for q in exp], counts, ' | '.join(done)))
+            if [int(v) for v in bins] != cur_bins(hist, k):
+                return ('property', 'call %s of the history changed the caller\'s bins array to %s' % (done[-1].split(':')[0], bins.tolist()))
+            earlier.append((impl[1], impl[1].copy(), done[-1].split(':')[0]))
+            if st['spoil'] and rep == 0:
+                # the caller overwrites the array the call returned (e.g. accumulating in place) - the next call must not hand it out again
+                r = impl[1]
+                if st['spoil'] == 'zero':
+                    r[:] = 0
+                else:
+                    r *= 2
+                earlier[-1] = (r, r.copy(), done[-1].split(':')[0])
+        b = st['between']
+        if b == 'pc':
+            call_impl(prs.pc, bx)
+        elif b == 'background':
+            call_impl(prs.load_pcDelta_background)
+        elif b == 'bins0':
+            call_impl(prs.pcDelta, bx, by, bins=0)
+        elif b == 'other':
+            call_impl(prs.pcDelta, ['AAAA', 'CC', 'C'], ['A'], bins=range(6), normalize=False, pseudocount=1.0)
+        for arr, copy, name in earlier:
+            if not np.array_equal(arr, copy, equal_nan=True):
+                return ('property', 'the array returned by call %s of the history changed afterwards (now %s, was %s): results of different calls share storage. Calls so far: %s' % (
+                    name, arr.tolist(), copy.tolist(), ' | '.join(done)))
+    return None
+
+
+def cur_bins(hist, k):
+    sh = sum(st['shift'] for st in hist['steps'][:k + 1])
+    return [v + sh for v in hist['bins0']]
+
+
+def check_history(ctx, rng, n, steps):
+    for _ in range(n):
+        hist = gen_history(rng, steps)
+        res = eval_history(ctx, hist)
+        ctx.count('history:%s/%s' % (hist['kind'], hist.get('container') or hist.get('fill')))
+        ctx.case(nontrivial_key=('history', repr(hist['steps'][0]['xs']), hist['metric'][0]))
+        if res is not None:
+            # shortest failing prefix
+            lo = hist
+            for cut in range(1, len(hist['steps'])):
+                cand = dict(hist, steps=hist['steps'][:cut])
+                r2 = eval_history(ctx, cand)
+                if r2 is not None and r2[0] == res[0]:
+                    lo, res = cand, r2
+                    break
+            ctx.violation(res[0], res[1], dict(history=lo), site='distance.pcDelta[call history on shared objects]')
+            return
 
 
 # ---------------------------------------------------------------------------------------------- large collections
@@ -692,10 +1526,13 @@ def shrink_large(ctx, lc, budget=25.0):
     return cur
 
 
-def gen_large_case(rng, P, tcr=False, one=False, slow_budget=0.5):
-    """a collection (pair of collections) with slightly MORE than P pairs, lengths not multiples of one another, drawn from 3-5 distinct short elements"""
+def gen_large_case(rng, P, tcr=False, one=False, slow_budget=0.5, dims=None):
+    """a collection (pair of collections) with slightly MORE than P pairs, lengths not multiples of one another, drawn from 3-5 distinct short elements;
+    dims = (n1, n2): these lengths instead (long and thin: more than 2**15 / 2**16 elements against a handful)"""
     root = math.isqrt(P)
-    if one:
+    if dims is not None:
+        n1, n2 = dims
+    elif one:
         n1 = math.isqrt(2 * P) + 2
         n1 += rng.randint(0, max(1, n1 // 16))
         n2 = None
@@ -750,8 +1587,8 @@ def gen_large_case(rng, P, tcr=False, one=False, slow_budget=0.5):
     def split(elems, n):
         cuts = sorted(rng.sample(range(1, n), len(elems) - 1)) if len(elems) > 1 else []
         return [[e, b - a] for e, a, b in zip(elems, [0] + cuts, cuts + [n])]
-    lc['mx'] = split(elems(k), n1)
-    lc['my'] = None if one else split(elems(rng.randint(3, 5)), n2)
+    lc['mx'] = split(elems(min(k, n1)), n1)
+    lc['my'] = None if one else split(elems(min(rng.randint(3, 5), n2)), n2)
     lc['seed'] = rng.randrange(2 ** 30)
     rand_params(rng, lc, maxd)
     if rng.random() < 0.6:          # raw counts over edges covering every distance: every missing / doubled pair shows
@@ -761,10 +1598,14 @@ def gen_large_case(rng, P, tcr=False, one=False, slow_budget=0.5):
 
 
 def check_large(ctx, rng, plan):
-    """plan: list of (P, tcr, one, slow_budget)"""
-    for P, tcr, one, slow_budget in plan:
-        lc = gen_large_case(rng, P, tcr, one, slow_budget)
-        ctx.count('large:%s pairs>2^%d' % ('one' if one else 'cross', P.bit_length() - 1))
+    """plan: list of (P, tcr, one, slow_budget[, dims])"""
+    for P, tcr, one, slow_budget, *rest in plan:
+        dims = rest[0] if rest else None
+        lc = gen_large_case(rng, P, tcr, one, slow_budget, dims)
+        if dims is None:
+            ctx.count('large:%s pairs>2^%d' % ('one' if one else 'cross', P.bit_length() - 1))
+        else:
+            ctx.count('large:thin %s>2^%d elements x %d' % ('first' if dims[0] > dims[1] else 'second', max(dims).bit_length() - 1, min(dims)))
         # the multiplicity formula itself, against the model on a scaled-down expansion of the same multisets
         mini = dict(lc, mx=rescale(lc['mx'], 3 * len(lc['mx'])), my=None if lc['my'] is None else rescale(lc['my'], 2 * len(lc['my'])))
         mc = large_full(mini)
@@ -789,15 +1630,28 @@ def check_large(ctx, rng, plan):
             return
 
 
+def thin_plan(rng, n):
+    """long and thin: more than 2**15 / 2**16 (thorough also 2**17) elements in one collection, 1 - 5 in the other (either argument)"""
+    out = []
+    for k in range(n):
+        big = rng.choice([2 ** 15, 2 ** 16] + ([2 ** 16, 2 ** 17] if n > 8 else [])) + rng.randint(1, 40)
+        small = rng.randint(1, 5)
+        dims = (big, small) if k % 2 == 0 else (max(2, small), big)
+        out.append((big * small, rng.random() < 0.3, False, 0.3, dims))
+    return out
+
+
 def large_plan(rng, quick):
     H = 2 ** 24
     if quick:
         # more than 2**24 pairs: cross form only (0.3 - 1.5 s each); the one-collection form of that size (4 - 6 s) is in the thorough tier
         plan = [(H, False, False, 0.3), (H, False, False, 0.3), (H, True, False, 0.3), (2 ** 22, False, True, 0.3)]
         plan += [(2 ** e, rng.random() < 0.3, rng.random() < 0.3, 0.3) for e in (12, 14, 16, 16, 18, 18, 20, 20, 22)]
+        plan += thin_plan(rng, 4)
     else:
         plan = [(H, rng.random() < 0.3, rng.random() < 0.3, 0.4) for _ in range(14)] + [(H, False, False, 80.0), (2 ** 25, False, False, 0.4), (2 ** 25, True, False, 0.4)]
         plan += [(2 ** rng.randint(10, 23), rng.random() < 0.3, rng.random() < 0.3, 2.0) for _ in range(100)]
+        plan += thin_plan(rng, 16)
     rng.shuffle(plan)
     return plan
 
@@ -949,6 +1803,22 @@ def check_background(ctx, rng):
             ctx.violation('property', 'pcDelta(%s, bins=<background bins>) modified the caller\'s bins to %s' % (xs, bins.tolist()), dict(xs=xs),
                           site='distance.pcDelta[background bins]')
             return
+    # the same alignment for tables, a second collection, the normalised forms (the table holds normalised values) and distances on / beyond the last edge
+    for _ in range(10):
+        case = gen_default_edge_case(rng) if rng.random() < 0.5 else gen_wide_tcr_case(rng) if rng.random() < 0.5 else gen_string_case(rng, big=True)
+        case['bins'], case['bins_container'] = [str(v) for v in bins_m], 'ndarray'
+        outs = ctx.oracle.run(oracle_requests(case))
+        if isinstance(outs[0], Exception):
+            continue
+        exp = expected_from(case, outs[0], ctx)
+        a = call_pcdelta(case, bins=bins)
+        norm = True if case['normalize'] is None else case['normalize']
+        ctx.count('background_bins_alignment')
+        ctx.case(nontrivial_key=('bgalign2', describe(case)))
+        if not (vec_ok(a, exp, integral=not norm) and len(a[1]) == len(back)) or [int(x) for x in bins] != bins_m:
+            ctx.violation('property', '%s with bins = the array returned by load_pcDelta_background() = %s does not align with the %d table rows: expected %s (raw counts %s); bins afterwards %s' % (
+                describe(case), show(a), len(back), ['nan' if q is None else str(q) for q in exp], outs[0], bins.tolist()), dict(case=case), site='distance.pcDelta[background bins]')
+            return
 
 
 def check_default_metric(ctx):
@@ -977,7 +1847,14 @@ def run(ctx):
                 'and explicit TCR metrics; (d) bins=0 vs pc; (e) zero bin vs sum n_i(n_i-1)/2; (f) maxseqs: result must be the histogram of one of the '
                 'sub-collections of exactly min(N, maxseqs) elements enumerated by the model; (g) load_pcDelta_background bins vs table rows vs default bins vs the bundled file, '
                 'again after the caller modified the returned table / bins in place, every call spelling; (h) large collections (2**12 .. more than 2**24 pairs, '
-                'lengths not multiples of one another, 3-5 distinct elements): expected counts from the model on the distinct elements weighted by multiplicities. '
+                'lengths not multiples of one another, 3-5 distinct elements; more than 2**15 / 2**16 elements against 1-5): expected counts from the model on the '
+                'distinct elements weighted by multiplicities; (i) wider inputs: numpy unicode array / tuple / pandas Index / Series with string, duplicated, shifted labels / '
+                'string and category dtype / set, a different container for the second collection, the same object as both collections, arguments by position / all by '
+                'keyword, bins as Series / Index / uint8 / int16 / int32 / float32 / float64 / NumPy scalars, numpy.bool_ normalize, pseudocounts 1e-6 .. 1e5 typed int / '
+                'float64 / float32, weights 100 .. 40000 (distances beyond 255 / 65535), case / blank / symbol alphabets, strings of 65 .. 300 residues, distances on the last '
+                'default edge, second table with more columns / own index, legacy tuple of Series; (j) maxseqs = 1, NumPy integer, further containers and explicit metrics, '
+                'collections of 50 .. 66000 elements (admissible histograms enumerated as sub-multisets), the draw varies and reaches every element over 80 NumPy seeds; '
+                '(k) histories of calls on one array / table refilled in place, one bins array shifted in place, one Metric object, results overwritten by the caller. '
                 'non-trivial := N >= 3 and at least two non-empty bins (for d-g: the quantity is not degenerate)')
     ctx.exhaustive = True
     q = ctx.quick
@@ -991,9 +1868,25 @@ def run(ctx):
         return
     if not run_cases(ctx, [gen_tcr_case(rng, big=True) for _ in range(20 if q else 300)], 'distance.pcDelta[tcr]'):
         return
+    # coverage audit: further containers / spellings / dtypes / sizes (see the comment above WIDE_ALPHABETS)
+    if not run_cases(ctx, [gen_wide_string_case(rng) for _ in range(150 if q else 2500)], 'distance.pcDelta[strings, wider inputs]', vm_every=50):
+        return
+    if not run_cases(ctx, [gen_wide_tcr_case(rng) for _ in range(90 if q else 1500)], 'distance.pcDelta[tcr, wider inputs]', vm_every=60):
+        return
+    if not run_cases(ctx, [gen_default_edge_case(rng) for _ in range(20 if q else 400)], 'distance.pcDelta[last default edge]'):
+        return
+    if not run_cases(ctx, [gen_long_case(rng, [65, 100, 127, 128, 129]) for _ in range(6 if q else 80)] +
+                     [gen_long_case(rng, [255, 256, 257, 300]) for _ in range(1 if q else 20)], 'distance.pcDelta[long strings]'):
+        return
     check_bins0(ctx, rng, 120 if q else 2000)
+    check_bins0(ctx, rng, 60 if q else 800, wide_opts=True)
     check_zero_bin(ctx, rng, 80 if q else 1500)
     check_maxseqs(ctx, rng, 100 if q else 1500)
+    check_maxseqs(ctx, rng, 40 if q else 700, wide_opts=True)
+    if not any((v.get('site') or '').startswith('distance.pcDelta[maxseqs') for v in ctx.violations):     # (an uncut collection of 66000 would cost 4e9 distances)
+        check_maxseqs_large(ctx, rng, 16 if q else 200, [50, 127, 128, 300, 1000, 1001, 5000, 33000, 66000])
+    check_maxseqs_random(ctx, rng, 6 if q else 60)
+    check_history(ctx, rng, 15 if q else 250, 6 if q else 8)
     check_large(ctx, rng, large_plan(rng, q))
     check_background(ctx, rng)
     check_default_metric(ctx)
@@ -1006,17 +1899,46 @@ def run(ctx):
 def replay(ctx, obj):
     rp = obj.get('replay') or {}
     case = rp.get('case')
+    site = obj.get('site')
+    if isinstance(rp.get('history'), dict):
+        res = eval_history(ctx, rp['history'])
+        ctx.case(nontrivial_key=('replay', 'history'))
+        if res is not None:
+            ctx.violation(res[0], res[1], dict(history=rp['history']), site=site)
+        return
+    if isinstance(rp.get('distinct'), dict) and rp.get('seeds'):
+        why = eval_maxseqs_distinct(ctx, rp['distinct'], rp['seeds'])
+        ctx.case(nontrivial_key=('replay', 'distinct'))
+        if why is not None:
+            ctx.violation('property', why, dict(distinct=rp['distinct'], seeds=rp['seeds']), site=site)
+        return
+    if isinstance(rp.get('random'), dict) and rp.get('seeds'):
+        why = eval_random(ctx, rp['random'], rp['seeds'])
+        ctx.case(nontrivial_key=('replay', 'random'))
+        if why is not None:
+            ctx.violation('property', why, dict(random=rp['random'], seeds=rp['seeds']), site=site)
+        return
     if isinstance(rp.get('large'), dict) and 'mx' in rp['large']:
         lc = rp['large']
-        res = eval_large(ctx, lc)
+        if lc.get('maxseqs') is not None and rp.get('seeds'):
+            res = eval_maxseqs_large(ctx, lc, rp['seeds'])[1]
+            res = None if res is None else ('property', res)
+        else:
+            res = eval_large(ctx, lc)
         ctx.case(nontrivial_key=('replay', describe_large(lc)))
         if res is not None:
-            ctx.violation(res[0], res[1], dict(large=lc), site=obj.get('site'))
+            ctx.violation(res[0], res[1], dict(large=lc), site=site)
+        return
+    if isinstance(case, dict) and case.get('bins') != '0' and 'xs' in case and case.get('maxseqs') is not None and rp.get('seeds'):
+        why = eval_maxseqs(ctx, case, rp['seeds'])[1]
+        ctx.case(nontrivial_key=('replay', describe(case)))
+        if why is not None:
+            ctx.violation('property', why, dict(case=case, seeds=rp['seeds']), site=site)
         return
     if isinstance(case, dict) and case.get('bins') != '0' and 'xs' in case and case.get('maxseqs') is None:
         res = eval_case(ctx, case)
         ctx.case(nontrivial_key=('replay', describe(case)))
         if res is not None:
-            ctx.violation(res[0], res[1], dict(case=case), site=obj.get('site'))
+            ctx.violation(res[0], res[1], dict(case=case), site=site)
         return
     run(ctx)
